@@ -48,6 +48,17 @@ def families(tier, rng):
             for end in (["vanish", 1], ["vanish", 1, "reset"], ["srvclose"], ["send", 1, "QUIT"], ["sendraw", 1, list(b"\xff\r\n")]):
                 fam.append(("heldcut", [["connect", 1], ["send", 1, "USER u1"], ["send", 1, "PASS pw1"], ["send", 1, "PASV"], ["dconnect", 1], ["hold", 1, hw],
                                         ["send", 1, verb], end, ["tick", 0]]))
+    # 6. the client stops reading its control connection: the reply writer blocks after the next reply, further replies queue up;
+    #    then the session ends in every way
+    for hw in (4, 40):
+        for cmds in (["PWD"], ["PWD", "SYST"], ["PWD", "TYPE I"], ["SYST", "PWD"]):
+            for end in (["vanish", 1], ["vanish", 1, "reset"], ["srvclose"], ["sendraw", 1, list(b"\xff\r\n")]):
+                for a in (0, 3):
+                    st = [["connect", 1], ["send", 1, "USER u2"], ["holdctl", 1, hw]]
+                    for c in cmds:
+                        st += [["nq", ["send", 1, c]], ["iter", 6]]
+                    st += [["iter", a], ["nq", end], ["tick", 0]] + ([["connect", 1], ["send", 1, "USER u2"], ["send", 1, "QUIT"]] if end[0] == "vanish" else [])
+                    fam.append(("backlog", st))
     for end in (["vanish", 1], ["vanish", 1, "reset"]):
         for a in range(0, 6):
             fam.append(("early", [["nq", ["connect", 1]], ["iter", a], ["nq", end], ["tick", 0], ["connect", 1], ["send", 1, "USER u2"],
